@@ -4,7 +4,7 @@ From Coq Require Import List NArith ZArith String Bool.
 From GQL Require Import Exec.Syntax Validate.VSyntax Validate.Overlap Validate.OverlapSpec Validate.Rules
      Exec.Exec Proofs.ValidateOverlap Proofs.ValidateRules Proofs.ValidateMerge Proofs.ValidateMemo Proofs.ValidateInputFields Proofs.ValidateArgs Proofs.ValidateCycles Proofs.ValidateUnused Proofs.ValidateMemoHard Proofs.ValidateL1 Validate.All Proofs.ValidateAll Proofs.ValidateCyclesComplete
      Validate.OverlapWf Proofs.ValidateReflect Proofs.ValidateReflectClose Proofs.ValidateFuel Proofs.ValidateDecide
-     Proofs.ValidateWf Proofs.ValidateRank Proofs.ValidateWfDoc Proofs.ValidateClosure Proofs.ValidateRulesDecl Proofs.ValidateLiteral Proofs.ValidateWitness Proofs.ValidateOffending Proofs.ValidateFuelMono Proofs.ValidateTermination.
+     Proofs.ValidateWf Proofs.ValidateRank Proofs.ValidateWfDoc Proofs.ValidateClosure Proofs.ValidateRulesDecl Proofs.ValidateLiteral Proofs.ValidateWitness Proofs.ValidateOffending Proofs.ValidateFuelMono Proofs.ValidateTermination Proofs.ValidateLocated.
 Import ListNotations.
 Open Scope string_scope.
 
@@ -476,6 +476,127 @@ Theorem C02_accept_iff : forall fuel S W,
   (validate_model fuel S W = [] <-> forall r, ~ Violates r S W).
 Proof. exact accept_iff. Qed.
 Print Assumptions C02_accept_iff.
+
+(* ---- locations: every node a rule's model reports is a node of the document of the kind the
+   rule names (the remaining rules; the overlap rule: C02_overlap_sound_witness) ---- *)
+(* the name node of a named operation / the node of an anonymous one *)
+Theorem C02_rule_located_unique_operation_names : forall W x, In x (rule_unique_operation_names W) -> exists o, In o (w_ops W) /\ x = snd (op_key o).
+Proof.
+  intros; eapply unique_operation_names_located; eassumption.
+Qed.
+Print Assumptions C02_rule_located_unique_operation_names.
+
+(* the name node of a fragment definition *)
+Theorem C02_rule_located_unique_fragment_names : forall W x, In x (rule_unique_fragment_names W) -> exists f, In f (w_frags W) /\ x = wf_nid f.
+Proof.
+  intros; eapply unique_fragment_names_located; eassumption.
+Qed.
+Print Assumptions C02_rule_located_unique_fragment_names.
+
+(* the name node of a variable definition *)
+Theorem C02_rule_located_unique_variable_names : forall W x, In x (rule_unique_variable_names W) -> exists o v, In o (w_ops W) /\ In v (wo_vars o) /\ x = wv_nid v.
+Proof.
+  intros; eapply unique_variable_names_located; eassumption.
+Qed.
+Print Assumptions C02_rule_located_unique_variable_names.
+
+(* an argument node of a field or directive *)
+Theorem C02_rule_located_unique_argument_names : forall S W x, In x (rule_unique_argument_names S W) -> exists i a, In i (doc_items S W) /\ In a (item_args i) /\ x = wa_id a.
+Proof.
+  intros; eapply unique_argument_names_located; eassumption.
+Qed.
+Print Assumptions C02_rule_located_unique_argument_names.
+
+(* the selection set of a leaf field / the composite field without one *)
+Theorem C02_rule_located_scalar_leafs : forall S W x, In x (rule_scalar_leafs S W) -> exists pt fd id nm args ssid hs, In (IField pt fd id nm args ssid hs) (doc_items S W) /\ (x = ssid \/ x = id).
+Proof.
+  intros; eapply scalar_leafs_located; eassumption.
+Qed.
+Print Assumptions C02_rule_located_scalar_leafs.
+
+(* the directive node *)
+Theorem C02_rule_located_known_directives : forall S W x, In x (rule_known_directives S W) -> exists loc dd d, In (IDir loc dd d) (doc_items S W) /\ x = wd_id d.
+Proof.
+  intros; eapply known_directives_located; eassumption.
+Qed.
+Print Assumptions C02_rule_located_known_directives.
+
+(* the argument node *)
+Theorem C02_rule_located_known_argument_names : forall S W x, In x (rule_known_argument_names S W) -> exists ow ad a, In (IArg ow ad a) (doc_items S W) /\ x = wa_id a.
+Proof.
+  intros; eapply known_argument_names_located; eassumption.
+Qed.
+Print Assumptions C02_rule_located_known_argument_names.
+
+(* the field or directive node *)
+Theorem C02_rule_located_provided_non_null_arguments : forall S W x, In x (rule_provided_non_null_arguments S W) -> (exists pt fd nm args ssid hs, In (IField pt fd x nm args ssid hs) (doc_items S W)) \/ (exists loc dd d, In (IDir loc dd d) (doc_items S W) /\ x = wd_id d).
+Proof.
+  intros; eapply provided_non_null_arguments_located; eassumption.
+Qed.
+Print Assumptions C02_rule_located_provided_non_null_arguments.
+
+(* the inline fragment or the spread *)
+Theorem C02_rule_located_possible_fragment_spreads : forall S W x, In x (rule_possible_fragment_spreads S W) -> (exists pt ty tc, In (IInline pt ty x tc) (doc_items S W)) \/ (exists pt nid g, In (ISpread pt x nid g) (doc_items S W)).
+Proof.
+  intros; eapply possible_fragment_spreads_located; eassumption.
+Qed.
+Print Assumptions C02_rule_located_possible_fragment_spreads.
+
+(* the type condition *)
+Theorem C02_rule_located_fragments_on_composite_types : forall S W x, In x (rule_fragments_on_composite S W) -> (exists pt ty id tc, In (IInline pt ty id (Some tc)) (doc_items S W) /\ x = fst tc) \/ (exists f, In f (w_frags W) /\ x = wf_tcid f).
+Proof.
+  intros; eapply fragments_on_composite_located; eassumption.
+Qed.
+Print Assumptions C02_rule_located_fragments_on_composite_types.
+
+(* the fragment definition *)
+Theorem C02_rule_located_no_unused_fragments : forall W x, In x (rule_no_unused_fragments W) -> exists f, In f (w_frags W) /\ x = wf_id f.
+Proof.
+  intros; eapply no_unused_fragments_located; eassumption.
+Qed.
+Print Assumptions C02_rule_located_no_unused_fragments.
+
+(* the variable usage *)
+Theorem C02_rule_located_no_undefined_variables : forall S W x, In x (rule_no_undefined_variables S W) -> exists o u, In o (w_ops W) /\ In u (rec_uses S W o) /\ x = fst u.
+Proof.
+  intros; eapply no_undefined_variables_located; eassumption.
+Qed.
+Print Assumptions C02_rule_located_no_undefined_variables.
+
+(* the variable definition *)
+Theorem C02_rule_located_no_unused_variables : forall S W x, In x (rule_no_unused_variables S W) -> exists o v, In o (w_ops W) /\ In v (wo_vars o) /\ x = wv_vid v.
+Proof.
+  intros; eapply no_unused_variables_located; eassumption.
+Qed.
+Print Assumptions C02_rule_located_no_unused_variables.
+
+(* the type of the variable definition *)
+Theorem C02_rule_located_variables_are_input_types : forall S W x, In x (rule_variables_are_input_types S W) -> exists o v, In o (w_ops W) /\ In v (wo_vars o) /\ x = wt_id (wv_type v).
+Proof.
+  intros; eapply variables_are_input_types_located; eassumption.
+Qed.
+Print Assumptions C02_rule_located_variables_are_input_types.
+
+(* the default value *)
+Theorem C02_rule_located_default_values_of_correct_type : forall S W x, In x (rule_default_values_of_correct_type S W) -> exists o v d, In o (w_ops W) /\ In v (wo_vars o) /\ wv_default v = Some d /\ x = wv_id d.
+Proof.
+  intros; eapply default_values_of_correct_type_located; eassumption.
+Qed.
+Print Assumptions C02_rule_located_default_values_of_correct_type.
+
+(* the definition of the variable *)
+Theorem C02_rule_located_variables_in_allowed_position : forall S W x, In x (rule_variables_in_allowed_position S W) -> exists o vd, In o (w_ops W) /\ In vd (wo_vars o) /\ x = wv_vid vd.
+Proof.
+  intros; eapply variables_in_allowed_position_located; eassumption.
+Qed.
+Print Assumptions C02_rule_located_variables_in_allowed_position.
+
+(* a named-type node *)
+Theorem C02_rule_located_known_type_names : forall S W x, In x (rule_known_type_names S W) -> (exists o v, In o (w_ops W) /\ In v (wo_vars o) /\ x = fst (type_named (wv_type v))) \/ (exists pt ty id tc, In (IInline pt ty id (Some tc)) (doc_items S W) /\ x = fst tc) \/ (exists f, In f (w_frags W) /\ x = wf_tcid f).
+Proof.
+  intros; eapply known_type_names_located; eassumption.
+Qed.
+Print Assumptions C02_rule_located_known_type_names.
 
 (* ---- termination of the validator's model as a whole ----
    Only the overlap rule's model takes fuel.  The other recursive models are structural
